@@ -1,12 +1,15 @@
 package worlds
 
 import (
+	"context"
 	"encoding/binary"
 	"fmt"
 	"net"
 	"net/http"
 	"net/url"
+	"os"
 	"strconv"
+	"strings"
 	"sync"
 	"time"
 
@@ -16,6 +19,8 @@ import (
 )
 
 type simnetIP = net.IP
+
+type connKey struct{}
 
 func parseIP(s string) net.IP { return net.ParseIP(s).To4() }
 
@@ -32,25 +37,30 @@ type Reply struct {
 
 // Announce is one recorded announce.
 type Announce struct {
-	At         time.Duration
-	Proto      string
-	InfoHash   [20]byte
-	PeerID     [20]byte
-	Port       int
-	Uploaded   int64
-	Downloaded int64
-	Left       int64
-	Event      string
-	NumWant    int
-	Key        string
-	UserAgent  string
-	From       string
-	Reply      string // kind of the reply given
-	ReplyOK    bool
-	Interval   int64
-	MinInt     int64
-	RawQuery   string
-	TxID       uint32
+	At              time.Duration
+	Proto           string
+	InfoHash        [20]byte
+	PeerID          [20]byte
+	Port            int
+	Uploaded        int64
+	Downloaded      int64
+	Left            int64
+	Event           string
+	NumWant         int
+	Key             string
+	UserAgent       string
+	From            string
+	Reply           string // kind of the reply given
+	ReplyOK         bool
+	ConsumedOfReply int64  // oversize replies: bytes of this reply the client actually read
+	RetryIn         string // "retry in" value sent with a failure reply
+	Ambiguous       bool   // cannot tell a client-side cancel from a time-out
+	Cancelled       bool   // the client abandoned the request well before its own time-out (a cancel, not a failure)
+	Interval        int64
+	MinInt          int64
+	RawQuery        string
+	TxID            uint32
+	gone            bool
 }
 
 // TrackerActor is a scripted HTTP tracker (and, with UDP=true, a BEP 15 UDP tracker).
@@ -69,8 +79,12 @@ type TrackerActor struct {
 	srv     *http.Server
 	uc      *simnet.UDPConn
 	conns   map[uint64]time.Duration
+	txReply map[string]Reply
 	OnAnn   func(a *Announce)
-	stopped bool
+	// ClientTimeout is the SUT's HTTP tracker time-out (to tell a cancel from a time-out).
+	ClientTimeout time.Duration
+	LatSlack      time.Duration
+	stopped       bool
 }
 
 func (t *TrackerActor) nextReply() Reply {
@@ -89,10 +103,24 @@ func (t *TrackerActor) nextReply() Reply {
 }
 
 func (t *TrackerActor) record(a Announce) {
+	if os.Getenv("SIM_DEBUGSPACING") != "" {
+		simrt.Logf("record debug %s proto=%s ok=%v to=%v gone=%v dt=%v", t.Name, a.Proto, a.ReplyOK, t.ClientTimeout, a.gone, simrt.Now()-a.At)
+	}
+	if a.Proto == "http" && !a.ReplyOK && t.ClientTimeout > 0 && a.gone {
+		dt := simrt.Now() - a.At
+		switch {
+		case dt+t.LatSlack+300*time.Millisecond < t.ClientTimeout:
+			a.Cancelled = true // the client gave up long before its own time-out: a cancel
+			a.Reply += "(cancelled)"
+		case dt < t.ClientTimeout+300*time.Millisecond:
+			// could be the client's time-out (a failure) or a cancel just before it
+			a.Ambiguous = a.Reply == "noreply" || strings.Contains(a.Reply, "client gone")
+		}
+	}
 	t.mu.Lock()
 	t.Log = append(t.Log, a)
 	t.mu.Unlock()
-	simrt.Logf("tracker %s: announce %s event=%q port=%d left=%d key=%s reply=%s", t.Host.Name, a.Proto, a.Event, a.Port, a.Left, a.Key, a.Reply)
+	simrt.Logf("tracker %s: announce %s event=%q port=%d left=%d key=%s tx=%d reply=%s", t.Host.Name, a.Proto, a.Event, a.Port, a.Left, a.Key, a.TxID, a.Reply)
 	if t.OnAnn != nil {
 		t.OnAnn(&a)
 	}
@@ -108,6 +136,7 @@ func (t *TrackerActor) Announces() []Announce {
 func (t *TrackerActor) Start(seed uint64) {
 	t.rng = simrt.NewRand(seed)
 	t.conns = map[uint64]time.Duration{}
+	t.txReply = map[string]Reply{}
 	if t.Name == "" {
 		t.Name = t.Host.Name
 	}
@@ -129,7 +158,9 @@ func (t *TrackerActor) Start(seed uint64) {
 		panic("harness: tracker listen: " + err.Error())
 	}
 	t.URL = "http://" + ln.Addr().String() + "/announce"
-	t.srv = &http.Server{Handler: http.HandlerFunc(t.handleHTTP)}
+	t.srv = &http.Server{Handler: http.HandlerFunc(t.handleHTTP), ConnContext: func(ctx context.Context, c net.Conn) context.Context {
+		return context.WithValue(ctx, connKey{}, c)
+	}}
 	simrt.Go(t.Host, func() { t.srv.Serve(ln) })
 }
 
@@ -176,10 +207,12 @@ func (t *TrackerActor) handleHTTP(rw http.ResponseWriter, r *http.Request) {
 		case <-time.After(d):
 		case <-r.Context().Done():
 			a.Reply += "(client gone)"
+			a.gone = true
 			t.record(a)
 			return
 		}
 	}
+	gone := func() bool { return r.Context().Err() != nil }
 	switch rep.Kind {
 	case "ok":
 		m := map[string]any{"complete": 1, "incomplete": 1}
@@ -202,44 +235,68 @@ func (t *TrackerActor) handleHTTP(rw http.ResponseWriter, r *http.Request) {
 		} else {
 			m["peers"] = compactPeers(t.Peers)
 		}
-		a.ReplyOK = true
+		_, werr := rw.Write(gen.Bencode(m))
+		if f, ok := rw.(http.Flusher); ok {
+			f.Flush()
+		}
+		a.ReplyOK = werr == nil && !gone()
+		if !a.ReplyOK {
+			a.Reply += "(client gone)"
+			a.gone = true
+		}
 		t.record(a)
-		rw.Write(gen.Bencode(m))
 	case "fail":
 		m := map[string]any{"failure reason": "scripted failure"}
 		if rep.RetryIn != "" {
 			m["retry in"] = rep.RetryIn
+			a.RetryIn = rep.RetryIn
 		}
-		t.record(a)
 		rw.Write(gen.Bencode(m))
+		t.record(a)
 	case "http4xx":
-		t.record(a)
 		http.Error(rw, "nope", 403)
+		t.record(a)
 	case "http5xx":
-		t.record(a)
 		http.Error(rw, "boom", 503)
+		t.record(a)
 	case "garbage":
-		t.record(a)
 		rw.Write(t.rng.Bytes(t.rng.Range(0, 300)))
-	case "oversize":
 		t.record(a)
+	case "oversize":
 		// a body far beyond any sane response limit, streamed
 		chunk := make([]byte, 64<<10)
 		rw.Header().Set("Content-Type", "text/plain")
+		var pair *simnet.Pair
+		side := 0
+		if c, ok := r.Context().Value(connKey{}).(interface {
+			SimPair() (*simnet.Pair, int)
+		}); ok {
+			pair, side = c.SimPair()
+		}
+		before := int64(0)
+		if pair != nil {
+			before = pair.Consumed(side)
+		}
 		for i := 0; i < 96; i++ {
 			if _, err := rw.Write(chunk); err != nil {
-				return
+				break
 			}
 		}
-	case "noreply":
+		if pair != nil {
+			time.Sleep(2 * time.Second)
+			a.ConsumedOfReply = pair.Consumed(side) - before
+		}
 		t.record(a)
+	case "noreply":
 		select {
 		case <-r.Context().Done():
+			a.gone = true
 		case <-time.After(time.Hour):
 		}
-	default:
 		t.record(a)
+	default:
 		http.Error(rw, "bad script", 500)
+		t.record(a)
 	}
 }
 
@@ -302,7 +359,16 @@ func (t *TrackerActor) udpLoop() {
 				t.sendUDP(udpError(tx, "connection id expired"), from, t.Delay)
 				continue
 			}
-			rep := t.nextReply()
+			txk := fmt.Sprintf("%s/%d", from.String(), tx)
+			t.mu.Lock()
+			rep, again := t.txReply[txk]
+			t.mu.Unlock()
+			if !again {
+				rep = t.nextReply()
+				t.mu.Lock()
+				t.txReply[txk] = rep
+				t.mu.Unlock()
+			}
 			a.Reply = rep.Kind
 			d := t.Delay + rep.Delay
 			mk := func(txid uint32, interval int64) []byte {
@@ -312,7 +378,13 @@ func (t *TrackerActor) udpLoop() {
 				binary.BigEndian.PutUint32(out[8:12], uint32(int32(interval)))
 				binary.BigEndian.PutUint32(out[12:16], 1)
 				binary.BigEndian.PutUint32(out[16:20], 1)
-				return append(out, compactPeers(t.Peers)...)
+				peers := t.Peers
+				if txid != tx {
+					// a reply under another transaction id carries an address of its own:
+					// if the client ever dials it, it accepted the reply
+					peers = []string{"10.251.0.1:7002"}
+				}
+				return append(out, compactPeers(peers)...)
 			}
 			iv := int64(0)
 			if rep.Interval != nil {
